@@ -19,9 +19,9 @@ DIMS = dict(
     rhs=["nl_t", "nl", "lin_t"],
     control=["one", "none", "two"],
     pg=[None, "scalar", "mat"],
-    pc=[None, "control", "control+"],
+    pc=[None, "control", "control+", "both"],
     vg=[False, True],
-    vc=[None, "control", "control+"],
+    vc=[None, "control", "control+", "both"],
 )
 
 
